@@ -34,20 +34,17 @@ class Undecided(Exception):
 
 
 def tags_near(lines, ln):
-    """tags on generated line ln (1-based); if none, look upwards within the same clause block
-    (contiguous lines until a line ending in `,` or a keyword line) and then at the keyword line."""
-    if ln - 1 >= len(lines):
-        return []
-    t = TAG_RE.findall(lines[ln - 1])
-    if t:
-        return t
-    # multi-line clause: tag may be on the last line of the clause
+    """tags of the clause / assertion that starts on generated line ln (1-based): the tag comment sits on
+    the last line of the clause, i.e. the first line (from ln on) whose code part ends in `,` or `;`."""
     k = ln
-    while k < len(lines) and not lines[k - 1].rstrip().split("//")[0].rstrip().endswith(","):
-        k += 1
-        t = TAG_RE.findall(lines[k - 1]) if k - 1 < len(lines) else []
+    while k - 1 < len(lines) and k < ln + 25:
+        t = TAG_RE.findall(lines[k - 1])
+        code = lines[k - 1].split("//")[0].rstrip()
         if t:
             return t
+        if code.endswith(",") or code.endswith(";"):
+            return []
+        k += 1
     return []
 
 
